@@ -132,6 +132,23 @@ def run_lin(case):
                                 "%.3g for a = %s" % (e, a), wit, mech="linearity",
                                 obs={"rel": e})
         obs["linearity"] = worst
+        # the adjoint is an operator of its own: same linearity requirement
+        AH = A.H
+        u, v = crandn(rng, tuple(A.oshape)), crandn(rng, tuple(A.oshape))
+        STATE.peak = 0.0
+        Hu, Hv = np.asarray(AH(u)), np.asarray(AH(v))
+        pk = STATE.peak
+        for a in (1j, complex(rng.standard_normal(), rng.standard_normal())):
+            lhs = np.asarray(AH(a * u + v))
+            rhs = a * Hu + Hv
+            checks += 1
+            sc = abs(a) * nrm(Hu) + nrm(Hv) + 1e-3 * (1 + abs(a)) * max(nrm(u), nrm(v), pk) \
+                + (1 + abs(a)) * rnd
+            e = nrm(lhs - rhs) / sc if sc > 0 else nrm(lhs - rhs)
+            if not e <= tol:
+                return violated(sig, "adjoint not linear over C: ||A^H(a u + v) - a A^H(u) - "
+                                "A^H(v)|| rel %.3g for a = %s" % (e, a), wit,
+                                mech="linearity-adjoint", obs={"rel": e})
         if not (np.array_equal(x, x0) and np.array_equal(y, y0)):
             return violated(sig, "input array modified by application", wit, mech="mutated")
         # determinism over histories
